@@ -275,24 +275,32 @@ func Shrink(e Engine, c *Case, v *work.Violation, dir string, budget int) (*Case
 	return best, bestV, used
 }
 
-// altEngine alternates between two engines by run parity (a property decided
-// by two arms); a case remembers which arm produced it.
-type altEngine struct{ a, b Engine }
+// altEngine rotates between several engines by run index (a property decided
+// by more than one arm); a case remembers which arm produced it.
+type altEngine struct{ arms []Engine }
 
-func (e altEngine) Name() string { return e.a.Name() + "+" + e.b.Name() }
+func (e altEngine) Name() string {
+	n := ""
+	for i, a := range e.arms {
+		if i > 0 {
+			n += "+"
+		}
+		n += a.Name()
+	}
+	return n
+}
 
 func (e altEngine) Gen(prop, tier string, ts *sim.Tapes) *Case {
-	if ts.Run%2 == 0 {
-		return e.a.Gen(prop, tier, ts)
-	}
-	return e.b.Gen(prop, tier, ts)
+	return e.arms[int(ts.Run%uint64(len(e.arms)))].Gen(prop, tier, ts)
 }
 
 func (e altEngine) pick(c *Case) Engine {
-	if c.Engine == e.b.Name() {
-		return e.b
+	for _, a := range e.arms {
+		if c.Engine == a.Name() {
+			return a
+		}
 	}
-	return e.a
+	return e.arms[0]
 }
 
 func (e altEngine) Run(c *Case, dir string) *Outcome { return e.pick(c).Run(c, dir) }
